@@ -197,10 +197,18 @@ bool plan_from_json(const J &j, Plan &p, std::string *err);
 
 // ---------------------------------------------------------------- helpers for adapters
 // exact-sized heap copy of caller data, scribbled and freed when it goes out of scope
+// The buffer ends exactly at the end of its heap block (an over-read of one byte is visible to ASan) and starts
+// g_caller_misalign bytes after its beginning: keys and values are byte strings and may live at any address.
+extern int g_caller_misalign;
 struct CallerBuf {
-    unsigned char *p; size_t n;
-    explicit CallerBuf(const Bytes &b) : n(b.size()) { p = (unsigned char *)malloc(n ? n : 1); if (n) memcpy(p, b.data(), n); }
-    ~CallerBuf() { if (p) { memset(p, 0xA5, n ? n : 1); free(p); } }
+    unsigned char *base, *p; size_t n;
+    explicit CallerBuf(const Bytes &b) : n(b.size()) {
+        size_t off = (size_t)(g_caller_misalign & 7);
+        base = (unsigned char *)malloc(off + (n ? n : 1));
+        p = base + off;
+        if (n) memcpy(p, b.data(), n);
+    }
+    ~CallerBuf() { if (base) { memset(p, 0xA5, n ? n : 1); free(base); } }
     CallerBuf(const CallerBuf &) = delete;
 };
 Bytes gen_value(int vseed, int vlen, int klass);   // deterministic value bytes
